@@ -227,7 +227,7 @@ def _fault_set(draw, horizon=400):
 
 @st.composite
 def _multi_fault_case(draw):
-    sc = draw(scen.toy_multi_scenario(cap=200))
+    sc = draw(scen.toy_multi_scenario(cap=200, allow_shapes=True))
     return {"sc": sc, "growth_faults": draw(_fault_set()), "imp_faults": draw(st.one_of(st.just([]), _fault_set()))}
 
 
@@ -242,7 +242,7 @@ def _binary_fault_case(draw):
 @st.composite
 def _wide_scenario(draw):
     if draw(st.integers(0, 2)) == 2:
-        sc = draw(scen.toy_multi_scenario(cap=250))
+        sc = draw(scen.toy_multi_scenario(cap=250, allow_shapes=True))
     else:
         sc = draw(scen.toy_binary_scenario(cap=300, allow_elastic=True))
     if draw(st.integers(0, 3)) == 3:
